@@ -46,7 +46,14 @@ def fmt_num(x):
     return sign + s
 
 
+APPROX = [False]     # when set, values need not be exactly representable: results are compared with a tolerance
+
+
 def nice(x):
+    if APPROX[0]:
+        if x != x or abs(x) > 1e12:
+            raise OutOfDomain("magnitude %r" % x)
+        return float(x)
     if x != x or abs(x) > 1e6:
         raise OutOfDomain("magnitude %r" % x)
     if not float(x * 64).is_integer():
@@ -304,6 +311,13 @@ class CBMachine(object):
                 raise CBError("FC", "SQR")
             r = math.sqrt(v)
             return nice(r)
+        if name in ("SIN", "COS", "TAN", "ATN", "EXP", "LOG") and APPROX[0]:
+            v = num(0)
+            if name == "LOG" and v <= 0:
+                raise CBError("FC", "LOG")
+            if name == "EXP" and v > 80:
+                raise CBError("OV", "EXP")
+            return {"SIN": math.sin, "COS": math.cos, "TAN": math.tan, "ATN": math.atan, "EXP": math.exp, "LOG": math.log}[name](v)
         if name in ("SIN", "COS", "TAN", "ATN", "EXP", "LOG"):
             v = num(0)
             if v != 0:
